@@ -275,6 +275,14 @@ def run_group(g, woven, scratch, want_trace=False):
         # missing function bodies (a change started to call a library function the harness has no contract stub for) and
         # failures of "layout" groups (which only pin a data layout that contract vocabulary relies on) say that the
         # machinery no longer fits the code, not that a property is violated: undecided
+        # "[stub-limit]" assertions sit in harness stubs and only say "this stub models the ways the unchanged code uses
+        # the library function, and the code now uses it differently": like a missing body, that is a limit of the
+        # machinery, not a violation -- unless a genuine obligation fails as well
+        stublim = [o for o in failed if '[stub-limit]' in (o['desc'] or '')]
+        failed = [o for o in failed if o not in stublim]
+        if stublim and not failed:
+            last_reason = 'harness stub does not model a new use of a library function: %s' % '; '.join(sorted(set(o['desc'] for o in stublim)))[:300]
+            continue
         nobody = [o for o in failed if '.no-body.' in (o['name'] or '')]
         if nobody:
             last_reason = 'no contract stub for a function the code now calls: %s' % ', '.join(sorted(set(o['name'] for o in nobody)))
@@ -348,9 +356,38 @@ def tier_adjust(g, tier):
     return g
 
 def run_groups(sel, tier, scratch, keep=False):
-    woven = os.path.join(scratch, 'woven')
-    rep = weave.weave_tree(REPO, os.path.join(VERIF, 'contracts'), woven)
     sel = [tier_adjust(g, tier) for g in sel]
+    exclude = {}
+    results_all = []
+    rep = None
+    woven = None
+    for attempt in range(3):
+        woven = os.path.join(scratch, 'woven' if attempt == 0 else 'woven%d' % attempt)
+        rep = weave.weave_tree(REPO, os.path.join(VERIF, 'contracts'), woven, exclude or None)
+        results, retry = run_groups_once(sel, tier, scratch, woven, rep)
+        # contract text of a function no longer compiles against its changed body (renamed/removed local, changed type):
+        # goto-cc names the function and the spec line.  Treat that function like one whose anchors do not fire --
+        # re-weave without its clauses and re-run the groups that could not be built, so that one changed function does
+        # not silence every other group of its translation unit.
+        newly = {}
+        for r in retry:
+            m = re.search(r"\.spec: In function '(\w+)'", r['reason'])
+            if m and m.group(1) not in exclude:
+                newly[m.group(1)] = 'contract text no longer compiles: ' + ' '.join(r['reason'].split())[:200]
+        if not newly:
+            results_all += results + retry
+            break
+        for fn, why in newly.items():
+            log('WEAVE: contract clauses of %s no longer compile; re-weaving without them' % fn)
+        exclude.update(newly)
+        results_all += results
+        ids = set(r['id'] for r in retry)
+        sel = [g for g in sel if g['id'] in ids]
+    else:
+        results_all += retry
+    return results_all, rep, woven
+
+def run_groups_once(sel, tier, scratch, woven, rep):
     # functions whose contract anchors no longer fire (code changed shape): contract-instrumented groups that
     # involve them cannot be decided; plain-route groups still run the real code
     broken = {}
@@ -371,13 +408,15 @@ def run_groups(sel, tier, scratch, keep=False):
                 keep.append(g)
         sel = keep
     # longest first
-    sel.sort(key=lambda g: -g.get('cost', g['timeout']))
+    sel = sorted(sel, key=lambda g: -g.get('cost', g['timeout']))
     # thorough tier contains the memory-hungry groups (64 KiB .. 1 MiB rings, 1100-byte path buffers): fewer at a time
     jobs = JOBS if tier == 'quick' else min(JOBS, int(os.environ.get('VERIF_JOBS_THOROUGH', '5')))
     with ThreadPoolExecutor(max_workers=jobs) as ex:
         futs = [ex.submit(run_group, g, woven, scratch) for g in sel]
         results = [f.result() for f in futs]
-    return results + pre, rep, woven
+    retry = [r for r in results if r['status'] == 'undecided' and r['reason'].startswith('goto-cc failed') and '.spec: In function' in r['reason']]
+    done = [r for r in results if r not in retry]
+    return done + pre, retry
 
 def main(argv):
     import argparse
